@@ -57,7 +57,7 @@ class _Decomp(Dyn):
 
 
 register(type('Dyn_decomposition_1', (_Decomp,), dict(n=1)))
-register(type('Dyn_decomposition_2', (_Decomp,), dict(n=2, tier='thorough', timeout=120.0)))
+register(type('Dyn_decomposition_2', (_Decomp,), dict(n=2, tier='off', timeout=120.0)))   # not decided within 2 h
 
 
 class _Passivity(Dyn):
